@@ -81,6 +81,17 @@ def userspace_strategy():
     })
 
 
+def with_aerotech(case):
+    """the group with the terminals flagged in case["aerotech"] turned into
+    Aerotech-style ones (they declare their variables by position)"""
+    flags = list(case.get("aerotech") or []) + [False] * 8
+    return dict(case["group"], terminals=[
+        dict(t, aerotech=True,
+             **{d: [dict(v, via="packet") for v in t[d]]
+                for d in ("in", "out")}) if a else t
+        for t, a in zip(case["group"]["terminals"], flags)])
+
+
 def run_userspace(case):
     import asyncio
     import struct
@@ -121,13 +132,7 @@ def run_userspace(case):
                 back[start] = cmd.value
             return bytes(back)
 
-        # an Aerotech-style terminal declares its variables by position
-        group = dict(case["group"], terminals=[
-            dict(t, aerotech=True,
-                 **{d: [dict(v, via="packet") for v in t[d]]
-                    for d in ("in", "out")}) if a else t
-            for t, a in zip(case["group"]["terminals"],
-                            list(case.get("aerotech", [])) + [False] * 4)])
+        group = with_aerotech(case)
         rig = cyclic.Rig(loop, group, "fast", fault=fault,
                          on_response=on_response)
         obs["rig"] = rig
@@ -229,6 +234,8 @@ def machine_strategy():
     return st.fixed_dictionaries({
         "group": groups.fast_group_strategy(
             max_terminals=2, types=groups.DETERMINISTIC),
+        "aerotech": st.lists(st.sampled_from([False, False, True]),
+                             min_size=2, max_size=2),
         "counter": st.sampled_from([0, 1, 2, 254, 255, 256, 511])
         | st.integers(0, 2**32 - 1),
         "registered": st.booleans(),
@@ -332,9 +339,11 @@ def run_case(case, only_c21=False):
     facts = set()
     stats = {"active": 0, "errors": 0, "output-disabled-runs": 0,
              "passive": 0, "short": 0}
+    if any(case.get("aerotech") or []):
+        classes.append("aerotech-terminal")
     with kernel.tracking() as tracker:
         try:
-            world = dispatch.World(case["group"], tracker)
+            world = dispatch.World(with_aerotech(case), tracker)
         except (AssembleError, OverflowError):
             return dict(ok=True, nontrivial=False,
                         classes=["rejected:AssembleError"])
